@@ -170,6 +170,10 @@ PERTURB = [
     ("offset", 1e-10, True), ("offset", 1e-9, True), ("offset", 1e-7, False), ("offset", 1e-3, False), ("offset", 0.3, False), ("offset", 0.5, False),
     ("scale", 1e-3, False), ("scale", 0.1, False), ("scale", -1e-3, False), ("rot", 1.0, False), ("mirror_x", 0, False), ("mirror_y", 0, False),
     ("offset", 5e-9, None), ("offset", 2e-8, None),
+    # appended (indices above are referenced by saved replays): relations whose matrix still has unit determinant or
+    # zero off-diagonals - both axes mirrored (= 180 degree turn), quarter turns, reciprocal per-axis scales, whole
+    # multiples of the pixel size
+    ("mirror_xy", 0, False), ("rot", 180.0, False), ("rot", 90.0, False), ("aniso", 2.0, False), ("aniso", 0.25, False), ("zoom", 2.0, False), ("zoom", 0.5, False),
 ]
 
 
@@ -205,6 +209,12 @@ def o_reject(case, T):
         Bf = A * Affine.translation(x0, y0) * Affine.scale(sx, sy)
     elif kind == "rot":
         Bf = A * Affine.translation(x0, y0) * Affine.rotation(amount)
+    elif kind == "mirror_xy":
+        Bf = A * Affine.translation(x0 + nx, y0 + ny) * Affine.scale(-1, -1)
+    elif kind == "aniso":
+        Bf = A * Affine.translation(x0, y0) * Affine.scale(amount, 1 / amount)
+    elif kind == "zoom":
+        Bf = A * Affine.translation(x0, y0) * Affine.scale(amount, amount)
     elif kind == "mirror_x":
         Bf = A * Affine.translation(x0 + nx, y0) * Affine.scale(-1, 1)
     else:
